@@ -191,6 +191,94 @@ theorem budget_needed : ∃ (c : Cfg) (run : Nat → St) (ls : Nat → Option La
   ⟨cfg4, retryRun, retryLab, by decide, retry_isRun, retry_fair, retry_quit, by decide,
    fun j => by rw [retry_fin j]; exact List.not_mem_nil⟩
 
+-- ------------------------------------------------------------------ strong fairness of the hand-shake branch is necessary too
+
+def fA : St := { wp := .impSus, nb := 1 }
+def fB : St := { wp := .impSus, hp := .blk }
+def fC : St := { wp := .impSus, hp := .blk, nb := 1 }
+/-- the worker takes an import and parks at suspend(); from then on a flood of blocks: the follower's select always
+    takes the block branch, never the hand-shake -/
+def starveRun : Nat → St
+  | 0 => { nt := 1, nb := 1 }
+  | k + 1 => if k % 3 = 0 then fA else if k % 3 = 1 then fB else fC
+def starveLab : Nat → Option Label
+  | 0 => some .wTakeImp
+  | k + 1 => some (if k % 3 = 0 then .hTakeBlk else if k % 3 = 1 then .eBlk else .hDoneBlk)
+
+theorem starve_isRun : IsRun cfg4 starveRun starveLab := by
+  refine ⟨by simp [Init, starveRun, cfg4], ?_⟩
+  intro i
+  match i with
+  | 0 => rfl
+  | k + 1 =>
+    have h : k % 3 = 0 ∨ k % 3 = 1 ∨ k % 3 = 2 := by omega
+    rcases h with h | h | h
+    · have h' : (k + 1) % 3 = 1 := by omega
+      simp [starveLab, starveRun, h, h']; decide
+    · have h' : (k + 1) % 3 = 2 := by omega
+      simp [starveLab, starveRun, h, h']; decide
+    · have h' : (k + 1) % 3 = 0 := by omega
+      simp [starveLab, starveRun, h, h']; decide
+
+theorem fB_disabled (l : Label) (hl : l.core = true) : fire .fixed cfg4 l fB = none ∨ l = .hDoneBlk := by
+  cases l <;> simp [Label.core] at hl <;> first | exact Or.inl rfl | exact Or.inr rfl
+
+theorem starve_weak (l : Label) (hl : l.core = true) : WF (fire .fixed cfg4) starveRun starveLab l := by
+  intro i hen
+  rcases fB_disabled l hl with h1 | h1
+  · have := hen (3 * i + 1 + 1) (by omega)
+    have h3 : (3 * i + 1) % 3 = 1 := by omega
+    simp [En, starveRun, h3, h1] at this
+  · refine ⟨3 * i + 2 + 1, by omega, ?_⟩
+    have h3 : (3 * i + 2) % 3 = 2 := by omega
+    simp [starveLab, h3, h1]
+
+theorem starve_blk : SF (fire .fixed cfg4) starveRun starveLab .hTakeBlk := by
+  intro i _
+  refine ⟨3 * i + 1, by omega, ?_⟩
+  have h3 : (3 * i) % 3 = 0 := by omega
+  simp [starveLab, h3]
+
+theorem starve_tx : SF (fire .fixed cfg4) starveRun starveLab .hTakeTx := by
+  intro i hen
+  obtain ⟨k, _, hk⟩ := hen i (Nat.le_refl i)
+  have hn : fire .fixed cfg4 .hTakeTx (starveRun k) = none := by
+    match k with
+    | 0 => rfl
+    | k + 1 =>
+      have h : k % 3 = 0 ∨ k % 3 = 1 ∨ k % 3 = 2 := by omega
+      rcases h with h | h | h <;> simp [starveRun, h] <;> rfl
+  rw [En, hn] at hk
+  cases hk
+
+theorem starve_quit (j : Nat) : (starveRun j).quit = false := by
+  match j with
+  | 0 => rfl
+  | k + 1 =>
+    have h : k % 3 = 0 ∨ k % 3 = 1 ∨ k % 3 = 2 := by omega
+    rcases h with h | h | h <;> simp [starveRun, h] <;> rfl
+
+theorem starve_obs (j : Nat) : (obs starveRun starveLab j).fin = [] ∧ ∀ t, (obs starveRun starveLab j).used t = 0 := by
+  induction j with
+  | zero => exact ⟨rfl, fun _ => rfl⟩
+  | succ j ih =>
+    match j with
+    | 0 => exact ⟨rfl, fun _ => rfl⟩
+    | k + 1 =>
+      have h : k % 3 = 0 ∨ k % 3 = 1 ∨ k % 3 = 2 := by omega
+      rcases h with h | h | h <;> simp [obs, starveLab, h, gstep] <;> exact ih
+
+/-- weak fairness of every step, strong fairness of the block and transaction branches, no stop request, no
+    retries – and the accepted import never even starts: without strong fairness of the hand-shake branch of the
+    follower's select a flood of blocks starves the worker -/
+theorem sus_fairness_needed : ∃ (c : Cfg) (run : Nat → St) (ls : Nat → Option Label), c.busy < c.cap ∧
+    IsRun c run ls ∧ (∀ l : Label, l.core = true → WF (fire .fixed c) run ls l) ∧
+    SF (fire .fixed c) run ls .hTakeBlk ∧ SF (fire .fixed c) run ls .hTakeTx ∧
+    (∀ i, (run i).quit = false) ∧ (∀ i t, (obs run ls i).used t ≤ 0) ∧
+    0 < (obs run ls 0).next ∧ ∀ j, 0 ∉ (obs run ls j).fin :=
+  ⟨cfg4, starveRun, starveLab, by decide, starve_isRun, starve_weak, starve_blk, starve_tx, starve_quit,
+   fun i t => Nat.le_of_eq ((starve_obs i).2 t), by decide, fun j => by rw [(starve_obs j).1]; exact List.not_mem_nil⟩
+
 -- ------------------------------------------------------------------ a fair run (non-vacuity of the hypotheses of `progress`)
 
 /-- one import queued and one block announced; the worker takes the task, the follower processes the block, then
@@ -269,6 +357,20 @@ theorem ok_content : (obs okRun okLab 0).next = 1 ∧ (obs okRun okLab 0).annB =
     0 ∈ (obs okRun okLab 6).fin ∧ (obs okRun okLab 6).procB = 1 := by
   refine ⟨rfl, rfl, ?_, rfl⟩
   simp [obs, okLab, okLabs, okRun, okStates, gstep, ginit, resNext, List.range, List.range.loop]
+
+theorem ok_quiet (j : Nat) : okLab j ≠ some .eBlk ∧ okLab j ≠ some .eTx := by
+  match j with
+  | 0 => decide
+  | 1 => decide
+  | 2 => decide
+  | 3 => decide
+  | 4 => decide
+  | 5 => decide
+  | j + 6 => simp [okLab, okLabs]
+
+theorem ok_noPush (j : Nat) (h : (okRun j).quit = true) : okLab j ≠ some .aPush := by
+  rw [ok_quit j] at h
+  cases h
 
 -- ------------------------------------------------------------------ a run with a stop request (non-vacuity of `stop_live`)
 
